@@ -15,3 +15,4 @@ pub mod order;
 pub mod structs;
 pub mod dispatch;
 pub mod session;
+pub mod vpos;
